@@ -143,6 +143,9 @@ def r_copyshape(f):
                 e = strip(d.expr(t["args"][0]))
                 if e[0] == "agg" and e[1].endswith("Range::Range") and len(e[2]) == 2:
                     sets.append(("range", e[2][0], e[2][1], t["span"]))
+                elif e[0] == "call" and e[2] == "new" and "RangeInclusive" in e[1] and len(e[3]) == 2:
+                    # a..=b visits b as well: the end of the visited set is b + 1
+                    sets.append(("range", e[3][0], ("bin", "Add", e[3][1], ("const", "1_usize", "usize")), t["span"]))
             if fn["name"] == "take" and t["args"]:
                 recv = strip(d.expr(t["args"][0]))
                 if recv[0] == "call" and recv[2] == "skip" and any(x[0] == "call" and x[2] in ("rows_mut", "rows") for x in walk(recv)):
@@ -223,6 +226,8 @@ def r_copyshape(f):
         for bi, t, fn in b.calls():
             if fn and fn["path"] == "core::slice::<impl [T]>::copy_within" and len(t["args"]) == 3:
                 r_ = strip(d.expr(t["args"][1]))
+                if r_[0] == "call" and r_[2] == "new" and "RangeInclusive" in r_[1] and len(r_[3]) == 2:
+                    r_ = ("agg", "core::ops::Range::Range", [r_[3][0], ("bin", "Add", r_[3][1], ("const", "1_usize", "usize"))])
                 if r_[0] == "agg" and r_[1].endswith("Range::Range") and len(r_[2]) == 2:
                     n += 1
                     a0, a1, dd = P(r_[2][0]), P(r_[2][1]), P(d.expr(t["args"][2]))
